@@ -30,7 +30,7 @@ def fix(results, cases):
             what = "noreturn" if isinstance(r, dict) and r.get("__noreturn__") else "raise"
             r = {"clauses": c["clauses"], "assumptions": c.get("assumptions", []), "limit": c.get("limit", 1),
                  "max_conflicts": c.get("max_conflicts", 100000), "max_restarts": c.get("max_restarts", 10000),
-                 "luby_factor": c.get("luby_factor", 100), "input": c, "internal_events": 0, "truncated": False,
+                 "luby_factor": c.get("luby_factor", 100), "planted": c.get("planted", []), "input": c, "internal_events": 0, "truncated": False,
                  "events": [{"e": what, "what": "WorkerCrash"}]}
         out.append(r)
     return out
@@ -82,6 +82,9 @@ def run(pid, tier, seed, replay=None):
     # ---- random formulas (learning, backjumping, restarts fire)
     cases += drv.gen_random(rng, 400 if tier == "quick" else 6000)
     cases += drv.gen_budget(rng, 120 if tier == "quick" else 1500)
+    cases += drv.gen_planted(rng, 12 if tier == "quick" else 150)
+    if pid == "C01":    # reaches reduce_db with blocking clauses in the database
+        cases += drv.gen_enum(rng, 4, small=True) if tier == "quick" else drv.gen_enum(rng, 60)
     # the repository's own tests as an input source: every solve_sat call they make (incl. CNFs produced by the CP encoder)
     from vlib import corpus
     rc = corpus.sat_cases(corpus.capture(["tests/solvors/test_sat.py", "tests/solvors/test_cp.py"]))
@@ -92,7 +95,7 @@ def run(pid, tier, seed, replay=None):
             for lf in (1, 3):
                 cases.append({"clauses": drv.pigeonhole(p, h), "assumptions": [], "limit": 1, "max_conflicts": 100000,
                               "max_restarts": 10000, "luby_factor": lf})
-    trs = fix(run_tasks("sat", "run_sat", cases, timeout=20 if tier == "quick" else 60), cases)
+    trs = fix(run_tasks("sat", "run_sat", cases, timeout=60 if tier == "quick" else 120), cases)
     vs = ck.validate(DIR, "CdclTrace", trs, "recorded solve_sat executions", timeout=3000)
     ck.classify(trs, [mine(pid, v) for v in vs], nontrivial=lambda t, v: t.get("internal_events", 0) >= 3)
     for t in trs:
@@ -101,6 +104,10 @@ def run(pid, tier, seed, replay=None):
     ck.extra["traces_with_learned_clauses"] = sum(1 for v in vs if v.get("nlearn", 0) > 0)
     ck.extra["learned_clauses_checked_for_entailment"] = sum(v.get("nlearn", 0) for v in vs)
     ck.extra["traces_with_blocking_clauses"] = sum(1 for v in vs if v.get("nblock", 0) > 0)
+    ck.extra["enumerations_with_reduce_db_over_blocking_clauses"] = sum(
+        1 for t in trs if t.get("reduce_db_calls", 0) > 0 and t["limit"] > 1)
+    ck.extra["planted_instances_with_reduce_db"] = sum(1 for t in trs if t.get("reduce_db_calls", 0) > 0 and t["planted"])
+    ck.extra["models_returned_by_enumerations"] = sum(len(t["events"][-1].get("sols", [])) for t in trs if t.get("reduce_db_calls") is not None)
     ck.extra["traces_with_restart"] = sum(1 for t in trs if any(e["e"] == "restart" for e in t["events"]))
     ck.extra["traces_truncated_to_return_level"] = sum(1 for t in trs if t.get("truncated"))
     ck.extra["traces_without_internal_events"] = sum(1 for t in trs if t.get("internal_events", 0) == 0)
